@@ -1,5 +1,6 @@
 """C12 — per-chromosome streaming never silently drops or misattributes entries."""
 import itertools
+import os
 
 import numpy as np
 
@@ -18,7 +19,7 @@ RULE = ("every genome of <= 3 (thorough: 4) contigs, plus one ignored and one un
         "border (every chunk a fresh table). Names with '_' both ignored (default filter) and included "
         "(filter disabled). Non-trivial = data order differs from genome order, or an unknown / ignored / absent contig")
 EXHAUSTIVE = {"quick": False, "thorough": False}
-MODEL_OPS = {"iter", "iter_zip", "genome_mask", "genome_compute", "track", "ms", "ms_zip", "jaccard", "forbes", "left_join"}
+MODEL_OPS = {"mem_pair", "iter", "iter_zip", "genome_mask", "genome_compute", "track", "ms", "ms_zip", "jaccard", "forbes", "left_join"}
 PARALLEL = 16
 ASSUMPTIONS = [
     "Python generators run to the next yield per pull; zip pulls its arguments left to right and stops at the first exhausted one "
@@ -135,7 +136,11 @@ def _sizes(c):
 
 
 def _ign_names(c):
-    return [n for n in c["names"] if c.get("filt", True) and "_" in n]
+    ig = [n for n in c["names"] if c.get("filt", True) and "_" in n]
+    dv = c.get("derive")
+    if dv and dv.get("use") == "derived":
+        ig += [n for n in dv["added"] if n not in ig]      # with_ignored_added: the added names are ignored too
+    return ig
 
 
 def _incl_names(c):
@@ -148,9 +153,13 @@ def _entries(stream):
 
 
 def _chunks(stream):
+    """the chunk lists of a stream; `empty_at` inserts empty chunks at the given positions of the chunk list"""
     e = _entries(stream)
     bounds = [0] + list(stream.get("cuts", [])) + [len(e)]
-    return [e[a:b] for a, b in zip(bounds[:-1], bounds[1:]) if b > a]
+    out = [e[a:b] for a, b in zip(bounds[:-1], bounds[1:]) if b > a]
+    for pos in sorted(stream.get("empty_at", []), reverse=True):
+        out.insert(min(pos, len(out)), [])
+    return out
 
 
 def model_request(c):
@@ -164,11 +173,24 @@ def model_request(c):
     d = {"op": c["op"], "n": len(c["names"]),
          "included": [table[n] for n in _incl_names(c)],
          "plainOrder": [table[n] for n in _incl_names(c) if "_" not in n],
-         "ignored": [table[n] for n in _ign_names(c)],
+         "ignored": [code(n) for n in _ign_names(c)],
          "all": [table[n] for n in c["names"]],
          "lengths": [CONTIG_SIZE + i for i in range(len(c["names"]))],
          "streams": [[[[code(n), i] for n, i in ch] for ch in _chunks(s)] for s in c["streams"]]}
+    if c["op"] == "mem_pair":
+        d["gs"] = []
+        for g in c["genomes"]:
+            gc = _genome_case(c, g)
+            d["gs"].append({"included": [table[n] for n in _incl_names(gc)],
+                            "plainOrder": [table[n] for n in _incl_names(gc) if "_" not in n],
+                            "ignored": [table[n] for n in _ign_names(gc)]})
     return d
+
+
+def _genome_case(c, g):
+    """the case seen by one of the genomes of a `mem_pair` case: same sizes, its own contig order and filter"""
+    names = sorted(c["names"]) if g.get("sort") else list(g["names"])
+    return {"names": names, "filt": g.get("filt", True)}
 
 
 # ------------------------------------------------------------------ implementation
@@ -203,6 +225,10 @@ def _mk_stream(stream, kind="interval"):
     out = []
     cls = BedGraph if kind == "bedgraph" else _table_class()
     for ch in _chunks(stream):                     # every chunk is built as a fresh table
+        if not ch:                                 # an empty chunk, as produced by filtering a chunk
+            one = BedGraph(["chr1"], [0], [1], [1]) if kind == "bedgraph" else cls(["chr1"], [0], [1])
+            out.append(one[np.array([False])])
+            continue
         names = [n for n, _ in ch]
         s = np.array([i for _, i in ch], dtype=int)
         if kind == "bedgraph":
@@ -234,15 +260,89 @@ def _per_contig(c, chrom, positions):
     return [out[n] for n in incl]
 
 
+def _derive(c, base, sizes):
+    """C12-a: other genome objects are derived from / built next to `base` BEFORE the evaluation; what the original
+    does afterwards must not depend on that (and the derived object ignores exactly the added names)"""
+    import bionumpy as bnp
+    from bionumpy.datatypes import Interval
+    from bionumpy.streams import NpDataclassStream
+    from bionumpy.genomic_data.genome_context import GenomeContext, ignore_underscores
+    dv = c.get("derive")
+    if not dv:
+        return base
+    derived = base.with_ignored_added(list(dv["added"]))
+    if dv.get("extras"):
+        # more objects over the very same dict object
+        bnp.Genome.from_dict(sizes, sort_names=True)
+        GenomeContext.from_dict(sizes, ignore_underscores)
+        GenomeContext.from_dict(sizes, None).with_ignored_added(list(dv["added"]))
+    if dv.get("warm"):
+        ctx = derived.get_genome_context() if hasattr(derived, "get_genome_context") else derived
+        names = [n for n in dv["added"]] + [c["names"][-1]]
+        try:
+            list(ctx.iter_chromosomes(NpDataclassStream(iter([Interval(names, [0] * len(names), [1] * len(names))]), Interval), Interval))
+        except Exception:
+            pass
+    return derived if dv.get("use") == "derived" else base
+
+
 def _ctx(c):
     from bionumpy.genomic_data.genome_context import GenomeContext, ignore_underscores
-    return GenomeContext.from_dict(_sizes(c), ignore_underscores if c.get("filt", True) else None)
+    sizes = _sizes(c)
+    return _derive(c, GenomeContext.from_dict(sizes, ignore_underscores if c.get("filt", True) else None), sizes)
 
 
 def _genome(c):
     import bionumpy as bnp
     from bionumpy.genomic_data.genome_context import ignore_underscores
-    return bnp.Genome.from_dict(_sizes(c), filter_function=ignore_underscores if c.get("filt", True) else None)
+    sizes = _sizes(c)
+    return _derive(c, bnp.Genome.from_dict(sizes, filter_function=ignore_underscores if c.get("filt", True) else None), sizes)
+
+
+def _mem_pair(c):
+    """C12-b: several genomes over the same contig sizes, one after the other in this process, in-memory path"""
+    import bionumpy as bnp
+    from bionumpy.datatypes import Interval
+    from bionumpy.genomic_data.genome_context import ignore_underscores
+    sizes = _sizes(c)
+    ents = _entries(c["streams"][0])
+    table = lambda: Interval([n for n, _ in ents], np.array([i for _, i in ents], dtype=int), np.array([i + 1 for _, i in ents], dtype=int))
+    res = []
+    for g in c["genomes"]:
+        gc = _genome_case(c, g)
+        flt = ignore_underscores if g.get("filt", True) else None
+        if g.get("sort"):
+            G = bnp.Genome.from_dict(dict(sizes), sort_names=True, filter_function=flt)
+        else:
+            G = bnp.Genome.from_dict({n: sizes[n] for n in g["names"]}, filter_function=flt)
+        obs = []
+        for how in ("iter", "mask"):
+            try:
+                if not ents:
+                    raise _NoData()
+                if how == "iter":
+                    ctx = G.get_genome_context()
+                    obs.append({"out": [_ids(t) for t in ctx.iter_chromosomes(ctx.mask_data(table()), Interval)]})
+                else:
+                    r = bnp.compute(G.get_intervals(table()).as_stream().get_mask().get_data())
+                    chrom, pos = [], []
+                    for n, s, e in zip(_names_of(r.chromosome), r.start.tolist(), r.stop.tolist()):
+                        for p in range(int(s), int(e)):
+                            chrom.append(n); pos.append(p)
+                    obs.append({"out": _per_contig(gc, chrom, pos)})
+            except _NoData:
+                obs.append({"out": [[] for _ in _incl_names(gc)]})
+            except Exception as e:
+                import traceback
+                if os.path.abspath(traceback.extract_tb(e.__traceback__)[-1].filename) == os.path.abspath(__file__):
+                    raise
+                obs.append({"err": "raised"})
+        res.append(obs)
+    return {"res": res}
+
+
+class _NoData(Exception):
+    pass
 
 
 def _call(c):
@@ -252,6 +352,8 @@ def _call(c):
     op = c["op"]
     st = c["streams"]
     _CUR_KEY = c.get("key", "id")
+    if op == "mem_pair":
+        return _mem_pair(c)
     if op == "iter":
         return {"out": [_ids(t) for t in _ctx(c).iter_chromosomes(_mk_stream(st[0]), _table_class())]}
     if op == "iter_zip":
@@ -298,7 +400,6 @@ def _call(c):
 
 
 def impl(c):
-    import os
     try:
         return _call(c)
     except Exception as e:
@@ -349,6 +450,16 @@ def oracle(c):
         ns = [n for n, _ in s["groups"]]
         if len(set(ns)) != len(ns) or any(not ids for _, ids in s["groups"]):
             return SKIP                                # contiguity precondition / empty groups do not exist
+    if op == "mem_pair":
+        if not _entries(st[0]):
+            return SKIP                                # an empty in-memory table has no chromosome column to encode
+        res = []
+        for g in c["genomes"]:
+            gc = _genome_case(c, g)
+            sp = _spec_stream(_incl_names(gc), _ign_names(gc), st[0])
+            o = {"err": "raised"} if sp is None else {"out": sp}
+            res.append([o, o])
+        return {"res": res}
     if op in ("iter", "iter_zip", "genome_mask", "genome_compute", "track"):
         order, ignored = _incl_names(c), _ign_names(c)
     else:
@@ -375,6 +486,10 @@ def agree(c, got, exp):
     if isinstance(got, dict) and got.get("err") == "raised":
         return exp.get("err") == "raised"
     return core.canon(got) == core.canon(exp)
+
+
+def _strip(x):
+    return x
 
 
 def agree_model(c, got, m):
